@@ -54,7 +54,31 @@ Theorem C05_short_read_breaks_it :
   /\ concat (parse_nalus 8 (read_file 8 file)) = split_whole file.
 Proof. exact short_read_in_the_middle. Qed.
 
+(* PIPED STDIN, ARBITRARILY FRAGMENTED: whatever fragments the read() calls on the pipe return (the end of
+   the input being final), the accumulation loop of the reader forms an admissible schedule, so the NALs
+   handed over are those of the whole stream - the same as for the stream read from a file, for any two
+   chunk sizes *)
+Theorem C05_stdin_chunk_invariant : forall cs frags,
+  (1 <= cs)%nat -> eof_sticky frags ->
+  concat (parse_nalus cs (read_stdin cs frags)) = split_whole (concat frags).
+Proof. exact read_stdin_chunk_invariant. Qed.
+
+Theorem C05_file_and_pipe_agree : forall cs1 cs2 frags, (1 <= cs1)%nat -> (1 <= cs2)%nat -> eof_sticky frags ->
+  concat (parse_nalus cs1 (read_stdin cs1 frags)) = concat (parse_nalus cs2 (read_file cs2 (concat frags))).
+Proof. exact file_and_pipe_agree. Qed.
+
+(* a pipe handled like a file (one fragment per iteration, no accumulation) loses data *)
+Theorem C05_pipe_read_as_file_breaks :
+  let file := [0;0;1;64;1;7;7;7;7; 0;0;1;66;1;9] in
+  let frags := [firstn 6 file; skipn 6 file; []] in
+  eof_sticky frags /\
+  concat (parse_nalus 8 frags) <> split_whole file /\
+  concat (parse_nalus 8 (read_stdin 8 frags)) = split_whole file.
+Proof. exact pipe_read_as_file_breaks. Qed.
+
 Print Assumptions C05_convert_identity.
+Print Assumptions C05_stdin_chunk_invariant.
+Print Assumptions C05_file_and_pipe_agree.
 Print Assumptions C05_reader_chunk_invariant.
 Print Assumptions C05_file_chunk_size_irrelevant.
 Print Assumptions C05_batching_irrelevant.
